@@ -122,6 +122,18 @@ func c02Check(e *core.Env, r *core.Rand, d *gen.Out, today ref.Date, nowCase boo
 		} else {
 			wt, ws, wd = ref.FormatPlainDuration(wantTotal), ref.FormatPlainDuration(wantShould)+"!", ref.FormatSignedDuration(wantDiff)
 		}
+		if core.Hash64("cli", d.Text)%15 == 0 {
+			args := []string{"total", "--diff", "--no-warn", "--no-style"}
+			if nowCase {
+				args = append(args, "--now")
+			}
+			if decimal {
+				args = append(args, "--decimal")
+			}
+			if !cliAgrees(e, w, append(args, f), cpus, "", "", clock, res.Out, false) {
+				return
+			}
+		}
 		if to.Total != wt || to.Should != ws || to.Diff != wd || to.Records != len(doc.Recs) {
 			e.Violation("total-wrong", fmt.Sprintf("`klog total --diff` (decimal=%v, now=%v at %s) printed Total=%s Should=%s Diff=%s in %d records; the evaluation rules give Total=%s Should=%s Diff=%s in %d records",
 				decimal, nowCase, w["clock"], to.Total, to.Should, to.Diff, to.Records, wt, ws, wd, len(doc.Recs)), w)
